@@ -246,19 +246,28 @@ def shard(ctx):
     @st.composite
     def cases(draw):
         flags = draw(cli.flag_subsets())
-        if draw(st.integers(0, 3)) == 0 and files:
+        r = draw(st.integers(0, 7))
+        kind = 'generated'
+        if r < 2 and files:
             data = corpus.load(draw(st.sampled_from(files)))
             src = data if data is not None else SENTINEL_1
+            kind = 'corpus'
+        elif r < 4:
+            # sources on both sides of the size rule (tiny, non-UTF-8 cookie files with multi-byte growth, statements that grow):
+            # the rule "emit the API result unless it is longer in bytes" is part of what the CLI must agree with
+            from . import c14
+            src, k = draw(c14.sources())
+            kind = 'size-boundary:' + k.split(':')[0]
         else:
             src = draw(progs.programs(profile='shape', level=(3, 12))).source.encode('utf-8', 'backslashreplace')
-        return {'flags': flags, 'pl': draw(cli.preserve_spellings()), 'pg': draw(cli.preserve_spellings()),
+        return {'flags': flags, 'pl': draw(cli.preserve_spellings()), 'pg': draw(cli.preserve_spellings()), 'kind': kind,
                 'source': src, 'in_mode': draw(st.sampled_from(['stdin', 'path'])),
                 'out_mode': draw(st.sampled_from(['stdout', 'output']))}
 
     def prop(c):
         r = oracle(c)
         ctx.case(sha(c['flags'], c['pl'], c['pg'], c['source'], c['in_mode'], c['out_mode']), nontrivial(c['flags'], c['source']),
-                 classes=['generated', 'in:' + c['in_mode'], 'out:' + c['out_mode'], 'preserve' if (c['pl'] or c['pg']) else 'no-preserve'],
+                 classes=['generated', 'source:' + c.get('kind', 'generated'), 'in:' + c['in_mode'], 'out:' + c['out_mode'], 'preserve' if (c['pl'] or c['pg']) else 'no-preserve'],
                  sample={'flags': c['flags'], 'preserve_locals': c['pl'], 'preserve_globals': c['pg'], 'in': c['in_mode'], 'out': c['out_mode'], 'source': c['source'][:200].decode('utf-8', 'replace')})
         if r is not None:
             ctx.fail(c, r[0], r[1])
